@@ -19,6 +19,7 @@ from bec2format.bec2file import InitCustKeyAuthBlock, InitEccAuthBlock, UpdateAu
 INVS = ["AtMostOneCfg", "AfterSetCfg", "DerivedCommentsDependOnConfigOnly", "OtherCommentsUntouched", "OneBlockPerKind"]
 PROPS = ["FirmwareUntouched", "DeriveFromEmpty"]
 KEY = bytes(range(16, 32))
+CUSTKEY = bytes([0x12, 0x34] * 8)
 CODE1, CODE3 = b"\x45" * 8, bytes(range(1, 9))
 CONF = {
     1: {(0x1111, 0x22): b"\x33\x33\x33", (0x0202, 0x82): CODE1, (0x0620, 0x01): (10234).to_bytes(4, "big"),
@@ -59,6 +60,8 @@ def fw_comp(kind, n):
     desc = {0xC1: b"\x00", 0x10: bytes([n])}
     if kind == "fwT":
         desc[0xC3] = b"\x02"
+    if kind == "fwW":
+        desc[0xC3] = b"\x00\x03"                 # two-byte TYPE value: numerically 3, but NOT the configuration tag (03)
     return Bf3Component(desc, b"FW" + bytes([n]) * (3 + n))
 
 
@@ -68,7 +71,7 @@ def project(bec, g):
         d, blob = comp.description, bytes(comp.blob)
         if blob[:2] == b"FW":
             n = blob[2]
-            for kind in ("fwT", "fwU"):
+            for kind in ("fwT", "fwU", "fwW"):
                 ref = fw_comp(kind, n)
                 if d == ref.description and blob == ref.blob and comp.actual_len == len(blob) and not comp.encrypt_by_session_key:
                     comps.append({"k": kind, "id": n})
@@ -111,7 +114,11 @@ def spec_view(st):
             "auth": tuple(dict(a) for a in st["auth"])}
 
 
-def apply_op(bec, label, nfw):
+class ObservationMismatch(Exception):
+    pass
+
+
+def apply_op(bec, label, nfw, gamma=None):
     """label: the instantiated action as TLC prints it on the state-graph edge, e.g. SetCfg(1), DeriveAuth(2,"cust"), AddFw("fwU",TRUE)"""
     f = bec.bf3file
     name, _, rest = label.partition("(")
@@ -132,6 +139,25 @@ def apply_op(bec, label, nfw):
         s = io.StringIO()
         f.write_file(s, KEY)
         bec.bf3file = Bf3File.read_file(io.StringIO(s.getvalue()), True, KEY)
+    elif name == "FailedWrite":
+        for bad in ([], ()):
+            try:
+                bec.write_file(io.StringIO(), bad)
+            except KeyError:
+                continue
+            raise ObservationMismatch("BEC2 write with a customer-key block and no customer-key encryptor was not refused")
+    elif name == "WriteReadBec2":
+        from bec2format import SoftwareCustKeyEncryptor, ConfigSecurityCodeEncryptor
+        s = io.StringIO()
+        bec.write_file(s, [SoftwareCustKeyEncryptor(crypto_key=CUSTKEY)])
+        decs = [SoftwareCustKeyEncryptor(crypto_key=CUSTKEY)]
+        decs += [ConfigSecurityCodeEncryptor(b.config_security_code) for b in bec.auth_blocks.values() if isinstance(b, UpdateAuthBlock)]
+        back = Bec2File.read_file(io.StringIO(s.getvalue()), decs)
+        want = project(bec, gamma)
+        want["auth"] = tuple({"kind": "unknown", "c": 0} if a["kind"] == "ecc" else a for a in want["auth"])
+        got = project(back, gamma)
+        if got != want or back.session_key != bec.session_key:
+            raise ObservationMismatch("BEC2 file read back differs from the object written: %r / %r" % (got, want))
     else:
         raise MachineryError("unknown action label %r" % label)
 
@@ -150,7 +176,7 @@ def _walk(args):
         src, bec, hist, label, dst = stack.pop()
         b2 = copy.deepcopy(bec)
         try:
-            apply_op(b2, label, graph.nodes[src]["nfw"])
+            apply_op(b2, label, graph.nodes[src]["nfw"], g)
             got = project(b2, g)
         except Exception as e:               # noqa: BLE001
             got = {"exception": L.exc_info(e)}
@@ -176,7 +202,7 @@ def run(tier):
         res = tlc.require_ok(tlc.run(os.path.join(SPEC, "ObjModel.tla"), cfg("FALSE", 2, depth), os.path.join(wd, "mc"), workers=16,
                                      timeout=1800, dump=dump), "ObjModel")
         rep.add_mc("ObjModel: all operation sequences up to %d steps over 3 configurations, <= 2 firmware components" % depth, res,
-                   {"MaxSteps": depth, "MaxFw": 2, "operations": 22})
+                   {"MaxSteps": depth, "MaxFw": 2, "operations": 27})
         if tier == "thorough":
             res7 = tlc.require_ok(tlc.run(os.path.join(SPEC, "ObjModel.tla"), cfg("FALSE", 3, 8), os.path.join(wd, "mc8"), workers=16, timeout=2400), "ObjModel/8")
             rep.add_mc("ObjModel: depth 8, <= 3 firmware components (MC only)", res7, {"MaxSteps": 8, "MaxFw": 3})
